@@ -44,6 +44,13 @@ type HPACK struct {
 	// COMPRESSION_ERROR on a header that indexed one of them.
 	// https://tools.ietf.org/html/rfc7541#section-6.3
 	pendingSizeUpdate bool
+
+	// minSizeUpdate is the smallest maximum size set since the last header
+	// block. When the size changed more than once the peer has to be told the
+	// smallest value as well as the final one, or it keeps entries that were
+	// evicted here on the way down.
+	// https://tools.ietf.org/html/rfc7541#section-4.2
+	minSizeUpdate uint32
 }
 
 func headerFieldsToString(hfs []*HeaderField, indexOffset int) string {
@@ -106,6 +113,10 @@ func (hp *HPACK) Reset() {
 func (hp *HPACK) SetMaxTableSize(size uint32) {
 	if hp.maxTableSize == size && hp.maxTableSizeSettings == size {
 		return
+	}
+
+	if !hp.pendingSizeUpdate || size < hp.minSizeUpdate {
+		hp.minSizeUpdate = size
 	}
 
 	hp.maxTableSizeSettings = size
@@ -590,6 +601,10 @@ func (hp *HPACK) AppendHeader(dst []byte, hf *HeaderField, store bool) []byte {
 	// follows the change.
 	if hp.pendingSizeUpdate {
 		hp.pendingSizeUpdate = false
+
+		if hp.minSizeUpdate < hp.maxTableSize {
+			dst = appendInt(append(dst, 0x20), 5, uint64(hp.minSizeUpdate))
+		}
 
 		dst = appendInt(append(dst, 0x20), 5, uint64(hp.maxTableSize))
 	}
